@@ -39,6 +39,9 @@ var verifC13Src = []string{
 	"select id, rand(), rand(1, 6) from t",
 	"select t.id, s.c from t, lateral (select count(*) as c from t as z where z.k = t.k) s",
 	"select id, (select count(*) from json_table('{id,k}', '[{\"id\":1,\"k\":1}]') jt where jt.k = t.k) from t",
+	// a set operation evaluated by the workers of a scan inside the recursive term of a recursive query
+	// (they share the query's recursion counter)
+	"with recursive r (n) as (select 1 union all select n + 1 from r where n < 2 and n in (select z.k from t as z where z.k in (select 1 union select 0))) select n from r",
 }
 var verifC13Queries []parser.SelectQuery
 var verifC13Decls []parser.Statement
@@ -71,6 +74,9 @@ func VerifC13ParallelQueries() {
 	if amp > 1 {
 		tx.Flags.CPU = 4
 	}
+	if qi == 18 {
+		tx.Flags.LimitRecursion = 6 // the nested set operations count as recursion steps: keep the run short
+	}
 	proc := NewProcessor(tx)
 	scope := proc.ReferenceScope
 	_, err := proc.Execute(verifCtx(), verifC13Decls)
@@ -88,12 +94,17 @@ func VerifC13ParallelQueries() {
 		verifAssert("the prelude runs", e == nil)
 	}
 	verifPreemptions(verifBound(0, 1))
+	if qi == 18 {
+		// the first worker to get there ends the statement (recursion limit): the other one must be
+		// switched to while the first is still at it
+		verifPreemptions(1)
+	}
 	verifRaces(true)
 	verifSchedules(true)
 	view, err := Select(verifCtx(), scope, verifC13Queries[qi])
 	verifSchedules(false)
 	verifRaces(false)
-	if qi != 7 {
+	if qi != 7 && qi != 18 {
 		verifAssert("the query runs", err == nil)
 	}
 	if err == nil {
